@@ -551,4 +551,308 @@ theorem kindOfStr_some (s : Str) (k : Kind) (h : kindOfStr s = some k) : s = k.p
       · cases h; assumption
       · simp at h
 
+/-! ## single-character errors -/
+
+/-- the syndrome table: a single non-zero error `e` at distance `j` from the end of the 38
+    data+checksum characters never produces residue difference 0 (undetected as bech32) nor
+    `1 ⊕ 0x2bc830a3` (which would turn a bech32 checksum into a valid bech32m one) -/
+theorem syndrome_table : ∀ j < 38, ∀ e < 32, e ≠ 0 →
+    inputFes e (List.replicate j 0) ≠ 0 ∧ inputFes e (List.replicate j 0) ≠ 1 ^^^ BECH32M_TARGET := by
+  decide +kernel
+
+def unitVec (n i e : Nat) : List Nat := List.replicate i 0 ++ e :: List.replicate (n - i - 1) 0
+
+theorem zipWith_xor_zeros (l : List Nat) : List.zipWith (· ^^^ ·) l (List.replicate l.length 0) = l := by
+  induction l with
+  | nil => rfl
+  | cons y l ih => simp [List.replicate_succ, ih]
+
+theorem eq_of_xor_eq_zero (a b : Nat) (h : a ^^^ b = 0) : a = b := by
+  have := congrArg (· ^^^ b) h
+  simpa [Nat.xor_assoc] using this
+
+theorem set_eq_zipWith (l : List Nat) (i v : Nat) (hi : i < l.length) :
+    l.set i v = List.zipWith (· ^^^ ·) l (unitVec l.length i (l[i] ^^^ v)) := by
+  induction l generalizing i with
+  | nil => simp at hi
+  | cons x l ih =>
+    cases i with
+    | zero =>
+      simp [unitVec, ← Nat.xor_assoc, zipWith_xor_zeros]
+    | succ i =>
+      have := ih i (by simpa using hi)
+      simp only [List.set_cons_succ, List.length_cons, List.getElem_cons_succ, unitVec] at this ⊢
+      rw [show l.length + 1 - (i + 1) - 1 = l.length - i - 1 by omega]
+      simp [List.replicate_succ, ← this]
+
+theorem unitVec_length (n i e : Nat) (hi : i < n) : (unitVec n i e).length = n := by
+  simp [unitVec]; omega
+
+theorem unitVec_lt (n i e : Nat) (he : e < 32) : ∀ x ∈ unitVec n i e, x < 32 := by
+  intro x hx
+  simp only [unitVec, List.mem_append, List.mem_replicate, List.mem_cons] at hx
+  rcases hx with h | h | h <;> omega
+
+theorem inputFes_zeros (n : Nat) : inputFes 0 (List.replicate n 0) = 0 := by
+  induction n with
+  | zero => rfl
+  | succ n ih =>
+    simp only [List.replicate_succ, inputFes, List.foldl_cons]
+    rw [show inputFe 0 0 = 0 by decide]
+    exact ih
+
+theorem inputFes_unitVec (n i e : Nat) (he : e < 32) :
+    inputFes 0 (unitVec n i e) = inputFes e (List.replicate (n - i - 1) 0) := by
+  unfold unitVec
+  rw [inputFes_append, inputFes_zeros]
+  simp only [inputFes, List.foldl_cons]
+  rw [inputFe_small 0 e (by decide) he]
+  simp
+
+/-- replacing one of 38 field elements of a word with bech32 residue 1 by a different element
+    gives a residue that is neither the bech32 nor the bech32m target -/
+theorem residue_after_single_error (s : Nat) (l : List Nat) (i v : Nat) (hl : l.length = 38)
+    (hlt : ∀ x ∈ l, x < 32) (hi : i < 38) (hv : v < 32) (hne : l[i]'(by omega) ≠ v)
+    (hres : inputFes s l = BECH32_TARGET) :
+    inputFes s (l.set i v) ≠ BECH32_TARGET ∧ inputFes s (l.set i v) ≠ BECH32M_TARGET := by
+  have hi' : i < l.length := by omega
+  have hx : l[i] < 32 := hlt _ (List.getElem_mem hi')
+  have he : l[i] ^^^ v < 32 := Nat.xor_lt_two_pow (n := 5) hx hv
+  have he0 : l[i] ^^^ v ≠ 0 := by
+    intro h
+    exact hne (eq_of_xor_eq_zero _ _ h)
+  rw [set_eq_zipWith l i v hi', show inputFes s = inputFes (s ^^^ 0) by simp,
+    inputFes_xor _ _ _ _ (by rw [unitVec_length _ _ _ hi']) hlt (unitVec_lt _ _ _ he), hres,
+    inputFes_unitVec _ _ _ he, hl]
+  obtain ⟨t1, t2⟩ := syndrome_table (38 - i - 1) (by omega) _ he he0
+  generalize inputFes (l[i] ^^^ v) (List.replicate (38 - i - 1) 0) = y at *
+  constructor
+  · intro h
+    apply t1
+    have := congrArg (BECH32_TARGET ^^^ ·) h
+    simpa [← Nat.xor_assoc] using this
+  · intro h
+    apply t2
+    have := congrArg (BECH32_TARGET ^^^ ·) h
+    simp only [← Nat.xor_assoc, Nat.xor_self, Nat.zero_xor] at this
+    rw [this]; rfl
+
+theorem split_unique (a b x y : List Nat) (hx : 49 ∉ x) (hy : 49 ∉ y)
+    (h : a ++ 49 :: x = b ++ 49 :: y) : a = b ∧ x = y := by
+  rcases List.append_eq_append_iff.mp h with ⟨m, h1, h2⟩ | ⟨m, h1, h2⟩
+  · cases m with
+    | nil => simp at h1 h2; exact ⟨h1.symm, h2⟩
+    | cons z m =>
+      simp at h2
+      obtain ⟨rfl, rfl⟩ := h2
+      simp at hx
+  · cases m with
+    | nil => simp at h1 h2; exact ⟨h1, h2.symm⟩
+    | cons z m =>
+      simp at h2
+      obtain ⟨rfl, rfl⟩ := h2
+      simp at hy
+
+theorem isLower_simp (ch : Nat) : (!isUpper ch && isLower ch) = isLower ch := by
+  by_cases h : 97 ≤ ch <;> simp [isUpper, isLower, h]
+  omega
+
+theorem go_noMixed (l : List Nat) (n : Nat) (up lo req : Bool) (sep : Option Nat) (p : Nat)
+    (h : checkCharactersGo l n up lo req sep = some p) :
+    ¬ ((up || l.any isUpper) = true ∧ (lo || l.any isLower) = true) := by
+  induction l generalizing n up lo req sep with
+  | nil =>
+    unfold checkCharactersGo at h
+    split at h
+    · simp at h
+    · simp_all
+  | cons ch rest ih =>
+    unfold checkCharactersGo at h
+    simp only [isLower_simp] at h
+    repeat' (split at h)
+    all_goals first | (simp at h; done) | (have := ih _ _ _ _ _ h; simpa [Bool.or_assoc] using this)
+
+theorem checkCharacters_noMixed (s : Str) (p : Nat) (h : checkCharacters s = some p) :
+    ¬ (s.any isUpper = true ∧ s.any isLower = true) := by
+  have := go_noMixed _ _ _ _ _ _ _ h
+  simpa using this
+
+theorem decode_noMixed (s hrp : Str) (data : List Nat) (h : decode s = some (hrp, data)) :
+    ¬ (s.any isUpper = true ∧ s.any isLower = true) := by
+  unfold decode at h
+  cases hcc : checkCharacters s with
+  | none => simp [hcc] at h
+  | some sep => exact checkCharacters_noMixed s sep hcc
+
+theorem pfx_basic (k : Kind) :
+    (∀ c ∈ k.pfx, isUpper c = false) ∧ hrpParse k.pfx = true ∧ 49 ∉ k.pfx ∧ 99 ∈ k.pfx ∧
+    k.pfx.length + 1 + 32 + 6 ≤ 1023 := by
+  cases k <;> decide
+
+theorem val_cons_differ : ∀ pos < 15, ∃ j < 15, j ≠ pos ∧ PREFIX_VAL[j]? ≠ PREFIX_CONS[j]? := by
+  decide
+
+theorem pfx_set_ne (k k' : Kind) (pos c : Nat) (hpos : pos < k.pfx.length) (hc : k.pfx[pos]? ≠ some c) :
+    k.pfx.set pos c ≠ k'.pfx := by
+  intro h
+  by_cases hk : k = k'
+  · subst hk
+    have := congrArg (·[pos]?) h
+    simp only [List.getElem?_set_self hpos] at this
+    exact hc this.symm
+  · have hlen := congrArg List.length h
+    simp only [List.length_set] at hlen
+    have key : ∀ a b : List Nat, (∀ pos < 15, ∃ j < 15, j ≠ pos ∧ a[j]? ≠ b[j]?) → a.length = 15 →
+        pos < a.length → a.set pos c ≠ b := by
+      intro a b hd hl hp hab
+      obtain ⟨j, _, hj, hne⟩ := hd pos (by omega)
+      have := congrArg (·[j]?) hab
+      simp only [List.getElem?_set_ne (Ne.symm hj)] at this
+      exact hne this
+    cases k <;> cases k' <;> first | exact absurd rfl hk | (exact absurd hlen (by decide)) | skip
+    · exact key _ _ val_cons_differ rfl hpos h
+    · refine key _ _ ?_ rfl hpos h
+      intro pos hp
+      obtain ⟨j, h1, h2, h3⟩ := val_cons_differ pos hp
+      exact ⟨j, h1, h2, Ne.symm h3⟩
+
+theorem lowerValid_inj : ∀ c < 128, (feOfChar c).isSome = true → isUpper c = false →
+    charOfFe (feOfCharUnchecked c) = c := by decide +kernel
+
+/-- shape of a displayed address -/
+theorem display_structure (k : Kind) (id : Lumina.Util.Bytes) (h : id.length = 20) :
+    ∃ full : List Nat, addressToString k id = k.pfx ++ 49 :: full.map charOfFe ∧ full.length = 38 ∧
+      (∀ x ∈ full, x < 32) ∧ inputFes (inputHrp k.pfx) full = BECH32_TARGET := by
+  obtain ⟨h1, -, -, -, -⟩ := pfx_basic k
+  have hd : ∀ b ∈ id.map UInt8.toNat, b < 256 := by
+    intro b hb
+    obtain ⟨x, _, rfl⟩ := List.mem_map.mp hb
+    exact x.toNat_lt
+  refine ⟨bytesToFes (id.map UInt8.toNat) ++ checksumFes BECH32_TARGET k.pfx (bytesToFes (id.map UInt8.toNat)),
+    ?_, ?_, ?_, ?_⟩
+  · simp [addressToString, encode, map_toLower_of_noUpper _ h1]
+  · simp [bytesToFes_length, h, checksumFes_length]
+  · intro x hx
+    rcases List.mem_append.mp hx with hx | hx
+    · exact bytesToFes_lt _ hd x hx
+    · exact checksumFes_lt _ _ _ x hx
+  · rw [inputFes_append]
+    exact checksum_verifies _ _ (by decide)
+
+/-- **every single-character corruption of a displayed address is rejected** -/
+theorem corrupt_rejected (k : Kind) (id : Lumina.Util.Bytes) (h : id.length = 20) (pos c : Nat)
+    (hpos : pos < (addressToString k id).length) (hc : (addressToString k id)[pos]? ≠ some c) :
+    ∃ e, stringToKindAndId ((addressToString k id).set pos c) = .error e := by
+  obtain ⟨full, hs, hflen, hflt, hfres⟩ := display_structure k id h
+  rw [hs] at hpos hc ⊢
+  generalize hD : full.map charOfFe = d at *
+  have hdlen : d.length = 38 := by rw [← hD]; simpa using hflen
+  have hd49 : 49 ∉ d := by
+    rw [← hD]; intro hm
+    obtain ⟨v, hv, he⟩ := List.mem_map.mp hm
+    exact (charOfFe_facts v (hflt v hv)).2.2.1 he
+  cases hst : stringToKindAndId ((k.pfx ++ 49 :: d).set pos c) with
+  | error e => exact ⟨e, rfl⟩
+  | ok r =>
+    exfalso
+    obtain ⟨k', id'⟩ := r
+    unfold stringToKindAndId at hst
+    cases hdec : decode ((k.pfx ++ 49 :: d).set pos c) with
+    | none => simp [hdec] at hst
+    | some hd =>
+      obtain ⟨hrp, data⟩ := hd
+      simp only [hdec] at hst
+      cases hko : kindOfStr hrp with
+      | none => simp [hko] at hst
+      | some k2 =>
+        have hrp_eq := kindOfStr_some hrp k2 hko
+        subst hrp_eq
+        obtain ⟨d', hs', hvalid', -, hres', -⟩ := decode_some _ _ _ hdec
+        have hnm := decode_noMixed _ _ _ hdec
+        have hd'49 : 49 ∉ d' := fun hm => (validChar 49 (hvalid' 49 hm)).2.2.2 rfl
+        obtain ⟨hk1, -, hk49, hk99, -⟩ := pfx_basic k
+        obtain ⟨-, -, hk249, -, -⟩ := pfx_basic k2
+        by_cases hp1 : pos < k.pfx.length
+        · -- a prefix character
+          rw [List.set_append_left _ _ hp1] at hs'
+          obtain ⟨hp, -⟩ := split_unique _ _ _ _ hd49 hd'49 hs'
+          refine pfx_set_ne k k2 pos c hp1 ?_ hp
+          rwa [List.getElem?_append_left hp1] at hc
+        · by_cases hp2 : pos = k.pfx.length
+          · -- the separator
+            subst hp2
+            rw [List.set_append_right _ _ (Nat.le_refl _)] at hs'
+            simp only [Nat.sub_self, List.set_cons_zero] at hs'
+            have hc49 : c ≠ 49 := by
+              intro hc'; subst hc'
+              apply hc
+              rw [List.getElem?_append_right (Nat.le_refl _)]; simp
+            have : 49 ∈ k.pfx ++ c :: d := by rw [hs']; simp
+            rcases List.mem_append.mp this with hm | hm
+            · exact hk49 hm
+            · rcases List.mem_cons.mp hm with hm | hm
+              · exact hc49 hm.symm
+              · exact hd49 hm
+          · -- a data / checksum character
+            have hle : k.pfx.length ≤ pos := by omega
+            obtain ⟨i, hi⟩ : ∃ i, pos = k.pfx.length + 1 + i := ⟨pos - k.pfx.length - 1, by omega⟩
+            subst hi
+            have hi38 : i < 38 := by
+              simp only [List.length_append, List.length_cons, hdlen] at hpos; omega
+            have hsetEq : (k.pfx ++ 49 :: d).set (k.pfx.length + 1 + i) c = k.pfx ++ 49 :: d.set i c := by
+              rw [List.set_append_right _ _ hle,
+                show k.pfx.length + 1 + i - k.pfx.length = i + 1 by omega, List.set_cons_succ]
+            rw [hsetEq] at hs' hnm
+            have hci : d[i]? ≠ some c := by
+              rw [List.getElem?_append_right hle,
+                show k.pfx.length + 1 + i - k.pfx.length = i + 1 by omega] at hc
+              simpa using hc
+            by_cases hc49 : c = 49
+            · subst hc49
+              rw [List.set_eq_take_append_cons_drop, if_pos (by omega)] at hs'
+              have hdr : 49 ∉ d.drop (i + 1) := fun hm => hd49 (List.mem_of_mem_drop hm)
+              rw [show k.pfx ++ 49 :: (List.take i d ++ 49 :: List.drop (i + 1) d)
+                = (k.pfx ++ 49 :: List.take i d) ++ 49 :: List.drop (i + 1) d by simp] at hs'
+              obtain ⟨hp, -⟩ := split_unique _ _ _ _ hdr hd'49 hs'
+              apply hk249
+              rw [← hp]; simp
+            · have hset49 : 49 ∉ d.set i c := by
+                intro hm
+                rcases List.mem_or_eq_of_mem_set hm with hm | hm
+                · exact hd49 hm
+                · exact hc49 hm.symm
+              obtain ⟨hp, hdd⟩ := split_unique _ _ _ _ hset49 hd'49 hs'
+              subst hdd
+              have hcmem : c ∈ d.set i c := List.mem_set (by omega) c
+              have hcv := hvalid' c hcmem
+              obtain ⟨hcfe, -, -, -⟩ := validChar c hcv
+              -- no mixed case: the prefix is lower case, so `c` is not an upper-case letter
+              have hcu : isUpper c = false := by
+                cases hu : isUpper c with
+                | false => rfl
+                | true =>
+                  exfalso; apply hnm
+                  constructor
+                  · rw [List.any_eq_true]
+                    exact ⟨c, by simp [hcmem], hu⟩
+                  · rw [List.any_eq_true]
+                    exact ⟨99, by simp [hk99], by decide⟩
+              have hc128 : c < 128 := by
+                by_cases hlt : c < 128
+                · exact hlt
+                · rw [feOfChar_ge c (by omega)] at hcv; simp at hcv
+              have hfi : full[i]'(by omega) ≠ feOfCharUnchecked c := by
+                intro heq
+                apply hci
+                have : d[i]? = some (charOfFe (full[i]'(by omega))) := by
+                  rw [← hD]; simp [hflen, hi38]
+                rw [this, heq, lowerValid_inj c hc128 hcv hcu]
+              have hmap : (d.set i c).map feOfCharUnchecked = full.set i (feOfCharUnchecked c) := by
+                rw [List.map_set, ← hD, map_unchecked_charOfFe _ hflt]
+              rw [hmap, ← hp] at hres'
+              obtain ⟨r1, r2⟩ := residue_after_single_error _ full i _ hflen hflt hi38 hcfe hfi hfres
+              rcases hres' with hr | hr
+              · exact r2 hr
+              · exact r1 hr
+
 end Lumina.Proofs.Bech32
